@@ -454,6 +454,13 @@ func peelThinWrapper(f *ssa.Function) *ssa.Function {
 					if x.Heap && x.Comment != "varargs" {
 						return f
 					}
+				case *ssa.Defer:
+					// a deferred bookkeeping call (a counter stepped down under a mutex) does not
+					// make the wrapper a different goroutine body
+					if g := staticCallee(x.Common()); g == nil || !isBookkeepingFn(g) {
+						return f
+					}
+				case *ssa.RunDefers:
 				case *ssa.Return, *ssa.DebugRef, *ssa.UnOp, *ssa.FieldAddr, *ssa.MakeInterface, *ssa.ChangeInterface, *ssa.ChangeType,
 					*ssa.If, *ssa.Jump, *ssa.Extract, *ssa.BinOp, *ssa.Phi, *ssa.Slice, *ssa.IndexAddr, *ssa.Convert:
 				default:
@@ -667,4 +674,30 @@ func (p *Program) connConstructor() *ssa.Function {
 func (p *Program) isConnConstructorCall(cc *ssa.CallCommon) bool {
 	f := staticCallee(cc)
 	return f != nil && f == p.connConstructor()
+}
+
+// isBookkeepingFn: a repository function that only locks/unlocks mutexes, uses atomics and
+// reads/writes scalar fields (steps a counter): it cannot block on a client, cannot panic on
+// client data, and touches no connection.
+func isBookkeepingFn(f *ssa.Function) bool {
+	if f == nil || f.Blocks == nil || !inRepo(f) {
+		return false
+	}
+	ok := true
+	allInstrs(f, func(ins ssa.Instruction) {
+		switch x := ins.(type) {
+		case ssa.CallInstruction:
+			n := calleeName(x.Common())
+			if strings.HasPrefix(n, "(*sync.") || strings.HasPrefix(n, "(*sync/atomic.") || strings.HasPrefix(n, "sync/atomic.") {
+				return
+			}
+			if _, isB := x.Common().Value.(*ssa.Builtin); isB {
+				return
+			}
+			ok = false
+		case *ssa.IndexAddr, *ssa.Index, *ssa.Slice, *ssa.Lookup, *ssa.MapUpdate, *ssa.TypeAssert, *ssa.Send, *ssa.Select, *ssa.Panic, *ssa.MakeSlice, *ssa.MakeMap, *ssa.MakeChan:
+			ok = false
+		}
+	})
+	return ok
 }
